@@ -21,7 +21,9 @@ Output kinds: "ansi" Output(AnsiFormatter(forced=True)), "plain" Output(PlainFor
 "quiet-section" (the same three after set_quiet(True)), "section-pair" (the bar in the upper of two sections of one
 ANSI output; the lower section holds a neighbour bar - max 50, bar width 20, a 33-column frame that wraps on the 20-column
 terminal - and 'the neighbour advances' is one more operation of the history; after every operation the screen must show
-the sentinel row, the latest frame of the bar under test and the latest frame of the neighbour).
+the sentinel row, the latest frame of the bar under test and the latest frame of the neighbour), "plain-section" (a section
+of a plain output: judged as plain), "io:ansi-out/plain-err" / "io:plain-out/ansi-err" (the bar is constructed from an IO whose
+outputs differ; it draws on the error output and is judged as plain / ANSI accordingly; nothing may reach the standard output).
 Formats: "default" (what the bar picks for the output's verbosity: normal / verbose / very verbose / debug and
 their _nomax variants), "msg" (one line with %message%), "two" (two lines, %message% on the second); the custom
 formats come in a variant without %max%/%percent% for configurations whose maximum is 0 (= unknown).
@@ -286,6 +288,19 @@ def build(cfg):
     base = {"quiet": "ansi", "quiet-plain": "plain", "quiet-section": "section"}.get(kind, kind)
     if base == "plain":
         out = Output(st.stream, PlainFormatter())
+    elif base == "plain-section":
+        # a section of an output without ANSI support: a plain output like any other
+        out = Output(st.stream, PlainFormatter()).section()
+    elif base in ("io:ansi-out/plain-err", "io:plain-out/ansi-err"):
+        # the bar is given an IO whose two outputs differ: it draws on the ERROR output and must follow that one's abilities
+        from clikit.api.io import IO, Input
+        from clikit.io.input_stream import StringInputStream
+        other = _REC()
+        if base == "io:ansi-out/plain-err":
+            out = IO(Input(StringInputStream("")), Output(other, AnsiFormatter(forced=True)), Output(st.stream, PlainFormatter()))
+        else:
+            out = IO(Input(StringInputStream("")), Output(other, PlainFormatter()), Output(st.stream, AnsiFormatter(forced=True)))
+        st.other_stream = other
     else:
         out = Output(st.stream, AnsiFormatter(forced=True))
         if base == "section":
@@ -308,6 +323,7 @@ def build(cfg):
     if cfg["fmt"] != "default":
         st.bar.set_format(CUSTOM[(cfg["fmt"], cfg["max"] > 0)])
     st.term = None
+    kind = JUDGE_AS.get(kind, kind)
     if kind == "ansi":
         st.term = Term(BIGW)
     elif kind in ("section", "section-pair"):
@@ -352,6 +368,10 @@ def _pair_match(text):
         return None
     tail = text[text.rfind("\x1b[0J") + 4:] if "\x1b[0J" in text else text
     return _PairMatch(tail.partition("\n")[0])
+
+
+# output kinds that must behave exactly like another kind (the oracle of that kind is applied)
+JUDGE_AS = {"plain-section": "plain", "io:ansi-out/plain-err": "plain", "io:plain-out/ansi-err": "ansi"}
 
 
 def _neighbour_wrote(st, n0):
@@ -514,8 +534,11 @@ class Spec(object):
     def judge(self, st, op, ws):
         dt, name, arg = op
         cfg = self.cfg
-        kind = cfg["out"]
+        kind = JUDGE_AS.get(cfg["out"], cfg["out"])
         V = []
+        if getattr(st, "other_stream", None) is not None and st.other_stream.writes:
+            return [report.viol("io:wrote-to-standard-output", "the bar wrote to the standard output of its IO (it draws on the error output)",
+                                None, "", "".join(w for w, _ in st.other_stream.writes))]
         step, mx = st.bar.get_progress(), st.bar.get_max_steps()
         if (step, mx) != (st.m_step, st.m_max):
             V.append(report.viol("model:step-max", "after %s the bar reports progress/max %r, the reference says %r"
@@ -858,6 +881,11 @@ def plan(tier, seed):
     pair = [C(3, 4, "default", "section-pair", 0), C(0, 4, "default", "section-pair", 0)] + ([C(10, 28, "default", "section-pair", 0)] if T else [])
     part("section-pair", "bar in the upper of two sections, a neighbour bar with a wrapped frame in the lower one: all operations + "
                          "'the neighbour advances', throttle off, no clock advance", pair, clocks=(0,), depth=5 if T else 4)
+    # ---- outputs that must behave like a plain / an ANSI output although they are reached differently
+    odd = [C(3, 4, "default", o, 0) for o in ("plain-section", "io:ansi-out/plain-err", "io:plain-out/ansi-err")]
+    part("odd-outputs", "a section of a plain output; an IO whose standard output is decorated and whose error output is not, and the "
+                        "reverse (the bar draws on the error output): all operations, throttle off, no clock advance", odd, clocks=(0,),
+         depth=4 if T else 3)
     # ---- timing: the progress operations x every clock advance
     what = "start/advance(1)/advance(3)/set_progress(max)/display/finish x all clock advances; "
     tim3 = [C(3, 4, "default", "ansi", 0.1), C(3, 4, "default", "plain", 0.1), C(3, 4, "default", "ansi", 0),
